@@ -216,7 +216,8 @@ def run_case(case, ctx):
                 d = state_diff(state(e), state(fresh))
                 stale = [x for x in d if "stale attribute" in x]
                 if stale:
-                    ctx.excluded("attribute of the previous configuration left behind without effect on outputs")
+                    ctx.excluded("attribute of the previous configuration left behind without effect on outputs: "
+                                 "%s %s" % (spec.name, stale[0][:60]))
         # ---- determinism under the same global seed
         cfg = {"class": spec.name, "variant": vi, "sub": sub}
         try:
